@@ -118,6 +118,8 @@ def build(spec: dict) -> dict:
         pos = 0
         i = 0
         ext = b";ext=1" if spec.get("chunk_ext") else b""
+        if spec.get("chunk_ext") == "long":
+            ext = b";chunk-signature=" + b"0123456789abcdef" * 5  # a size line of about a hundred bytes (extensions are unbounded by the grammar)
         offs = {}
         while pos < len(body):
             n = sizes[i % len(sizes)] if sizes else len(body) - pos
